@@ -60,6 +60,9 @@ def cms_grid(rng, randomise):
             g.append(dict(base, num_reserved=nr + 256))
             g.append(dict(base, num_reserved=nr + 512))
         g.append(dict(base, max_count=mc + 2**16))
+        for big in (2**40, 2**48, 10**13):
+            g.append(dict(base, max_count=big))
+            g.append(dict(base, max_count=big + 1))  # relative difference below the resolution of a derived float
         g.append(dict(base, width=w + 256))
         g.append(dict(base, depth=d + 256))
         g.append(dict(base, width=2 * w))
@@ -128,6 +131,22 @@ def n_diff(a, b):
     return sum(a.get(k) != b.get(k) for k in MERGE_KEYS[a["kind"]])
 
 
+_SUBS = {}
+
+
+def make_maybe_subclass(cfg, sub):
+    """A sketch of the library class, or of a trivial user subclass of it (class Labelled(X): pass)."""
+    if not sub:
+        return state.make(cfg)
+    base = state.make(cfg)
+    cls = type(base)
+    if cls not in _SUBS:
+        _SUBS[cls] = type("Labelled" + cls.__name__, (cls,), {})
+    obj = _SUBS[cls].__new__(_SUBS[cls])
+    obj.__dict__.update(base.__dict__)
+    return obj
+
+
 def gen_cases(ctx):
     rng = ctx.rng("grid")
     rounds = 1 if ctx.quick else 6
@@ -139,12 +158,16 @@ def gen_cases(ctx):
             hist_b = [ops.gen_op(rng, keys, max_value=30, big=0) for _ in range(4)] + [["add", hx(keys[-1]), 2]]
             for a, b in itertools.product(grid, repeat=2):
                 yield {"a": a, "b": b, "hist_a": hist_a, "hist_b": hist_b}
+            # a trivial user subclass on either side must behave like the library class (equal and unequal configurations)
+            for a, b in ((grid[0], grid[0]), (grid[0], grid[1]), (grid[1], grid[0])):
+                for a_sub, b_sub in ((True, False), (False, True), (True, True)):
+                    yield {"a": a, "b": b, "hist_a": hist_a, "hist_b": hist_b, "a_sub": a_sub, "b_sub": b_sub}
 
 
 def run_case(case, ctx, mon):
     a_cfg, b_cfg = case["a"], case["b"]
-    a = state.make(a_cfg)
-    b = state.make(b_cfg)
+    a = make_maybe_subclass(a_cfg, case.get("a_sub"))
+    b = make_maybe_subclass(b_cfg, case.get("b_sub"))
     for op in case["hist_a"]:
         ops.apply_op(a, op)
     for op in case["hist_b"]:
